@@ -226,7 +226,7 @@ func (w *World) registerTime() {
 			sec.DivMod(t.I, big.NewInt(1_000_000_000), ns)
 			return e.strConst(time.Unix(sec.Int64(), ns.Int64()).UTC().Format(layout))
 		}
-		if comps := numericLayout(layout); comps != nil && e.mode == "lia" {
+		if comps := numericLayout(layout, e.timeFmtDigits); comps != nil && e.mode == "lia" {
 			// Fixed-width numeric layout built from "2006", "01", "02", "15" and
 			// separators: a byte vector whose digits are uninterpreted functions of
 			// the day (hour for "15") index of the instant. Congruence only: equal
@@ -260,6 +260,46 @@ func (w *World) registerTime() {
 		layout := e.argStr(a[0], "time layout")
 		s := a[1].(*StrV)
 		errT := types.Universe.Lookup("error").Type()
+		if comps := numericLayout(layout, e.timeFmtDigits); comps != nil && e.timeFmtDigits && s.Abs == nil && s.Opts == nil {
+			// inverse of the digit-mode Format: the text must be a digit string produced
+			// by Format with the same layout; the instant is recovered from the index
+			// of its finest component
+			pos, ok := 0, true
+			var fine *Term
+			fineGran := int64(0)
+			for _, c := range comps {
+				n := 1
+				if c.tok != "" {
+					n = len(c.tok)
+				}
+				if pos+n > len(s.B) {
+					ok = false
+					break
+				}
+				if c.tok == "" {
+					if cb, isC := e.concInt(s.B[pos], niByte); !isC || byte(cb) != c.lit {
+						ok = false
+						break
+					}
+				} else {
+					b := s.B[pos]
+					if b.Op != "uf" || b.Name != "timefmt_"+c.tok+"_0" || len(b.Args) != 1 {
+						ok = false
+						break
+					}
+					if fine == nil || c.gran < fineGran {
+						fine, fineGran = b.Args[0], c.gran
+					}
+				}
+				pos += n
+			}
+			if ok && pos == len(s.B) && fine != nil {
+				return TupleV{TimeV{NS: e.tb.IMul(fine, e.tb.Inti(fineGran))}, e.zero(errT)}
+			}
+			if _, isC := e.concStr(s); !isC {
+				e.ooe("time.Parse of a symbolic string that is not the digit-mode Format of an instant (layout %q)", layout)
+			}
+		}
 		if s.Abs != nil && s.Abs.Kind == "timefmt" && s.Abs.Layout == layout {
 			g := layoutGranularity(layout)
 			if g == 0 {
@@ -293,11 +333,25 @@ type layoutComp struct {
 // numericLayout splits a layout made only of the fixed-width numeric components used
 // for partition paths ("2006", "01", "02", "15") and non-alphanumeric separators;
 // nil for any other layout.
-func numericLayout(layout string) []layoutComp {
+func numericLayout(layout string, full bool) []layoutComp {
 	const day, hour = 86400_000_000_000, 3600_000_000_000
 	var out []layoutComp
 	for i := 0; i < len(layout); {
 		switch {
+		// digit mode (verif.TimeFormatDigits): minutes, seconds, the RFC 3339 'T' and a
+		// UTC zone designator, so that RFC 3339 text is a 20-byte digit string too
+		case full && len(layout)-i >= 2 && layout[i:i+2] == "04":
+			out = append(out, layoutComp{tok: "04", gran: 60_000_000_000})
+			i += 2
+		case full && len(layout)-i >= 2 && layout[i:i+2] == "05":
+			out = append(out, layoutComp{tok: "05", gran: 1_000_000_000})
+			i += 2
+		case full && layout[i] == 'T':
+			out = append(out, layoutComp{lit: 'T'})
+			i++
+		case full && len(layout)-i >= 6 && layout[i:i+6] == "Z07:00":
+			out = append(out, layoutComp{lit: 'Z'}) // instants are UTC
+			i += 6
 		case len(layout)-i >= 4 && layout[i:i+4] == "2006":
 			out = append(out, layoutComp{tok: "2006", gran: day})
 			i += 4
